@@ -22,6 +22,20 @@ def gen_streams(r, n):
     return out
 
 
+def gen_long_streams(r, n):
+    """Long histories of small values (state that accumulates across values: counters, depth bookkeeping, buffers)."""
+    pool = [("arr", []), ("obj", []), ("arr", [("arr", [])]), ("obj", [([97], ("obj", []))]), ("num", "0"), ("str", []), ("null",), ("bool", True),
+            ("arr", [("num", "1"), ("obj", [])]), ("obj", [([107], ("arr", [("arr", []), ("arr", [])]))])]
+    out = []
+    for i in range(n):
+        vals = [r.choice(pool) if r.random() < 0.85 else G.rand_value(r, 2) for _ in range(r.choice([150, 300, 600]))]
+        if r.random() < 0.5:
+            vals.append(G.nested(r, 60, ("num", "7")))
+        data, _ = G.spell_stream(r, vals)
+        out.append(data)
+    return out
+
+
 def check(tier, seed, replay=None):
     chk = Check("C01", tier, seed)
     chk.rule = ("a case is one input byte stream (a conforming serialisation of a value sequence); distinct = distinct byte strings; "
@@ -64,7 +78,7 @@ def check(tier, seed, replay=None):
         chk.notes["model_behaviours_replayed"] = len(datas)
         # 3. seeded random conforming streams beyond the exhaustive bound
         rnd = random.Random(seed)
-        for d in gen_streams(rnd, 300 if tier == "quick" else 12000):
+        for d in gen_streams(rnd, 300 if tier == "quick" else 12000) + gen_long_streams(rnd, 3 if tier == "quick" else 60):
             if d not in seen:
                 seen.add(d)
                 datas.append(d)
